@@ -218,6 +218,24 @@ func (i *MessagingMiddleware) interceptDecryptionKeys(
 		return nil, errors.Wrapf(err, "failed to get current decryption trigger for eon %d", originalMsg.Eon)
 	}
 
+	// The slot, tx pointer and signatures attached below belong to the current decryption trigger.
+	// If the keys are for another identity list (e.g. late key shares of the previous slot arrived
+	// after the following trigger), the signatures would not match the keys. In this case, we drop
+	// the message, as we do for key shares.
+	identityPreimages := []identitypreimage.IdentityPreimage{}
+	for _, key := range originalMsg.Keys {
+		identityPreimages = append(identityPreimages, identitypreimage.IdentityPreimage(key.IdentityPreimage))
+	}
+	identitiesHash := computeIdentitiesHash(identityPreimages)
+	if !bytes.Equal(identitiesHash, trigger.IdentitiesHash) {
+		log.Warn().
+			Uint64("eon", originalMsg.Eon).
+			Hex("expectedIdentitiesHash", trigger.IdentitiesHash).
+			Hex("actualIdentitiesHash", identitiesHash).
+			Msg("intercepted keys message with unexpected identities hash")
+		return nil, nil
+	}
+
 	keyperSet, err := obsKeyperDB.GetKeyperSetByKeyperConfigIndex(ctx, int64(originalMsg.Eon))
 	if err != nil {
 		return nil, errors.Wrapf(err, "failed to get keyper set from database for eon %d", originalMsg.Eon)
